@@ -119,18 +119,23 @@ Definition has_msg (s : store) (b uid : N) : bool :=
   | None => false
   end.
 
-(* uids the session does not know (any more) are skipped without a storage call *)
+(* one storage call per uid (a uid that has disappeared meanwhile makes the
+   call return None: nothing changes) *)
 Fixpoint copy_loop (mv : bool) (s : store) (src : N) (uids : list N) (dst : N)
          (fault : option nat) : store * list store * bool :=
   match uids with
   | [] => (s, [], false)
   | u :: r =>
-      if negb (has_msg s src u) then copy_loop mv s src r dst fault
-      else if fires fault then (s, [], true)
+      if fires fault then (s, [], true)
       else let s1 := if mv then st_move s src u dst else st_copy s src u dst in
            let '(s2, tr, f) := copy_loop mv s1 src r dst (tick fault) in
            (s2, s1 :: tr, f)
   end.
+
+(* the uids of the command that the session knows: those in the source when
+   the command starts (the selected view is refreshed between commands only) *)
+Definition known_uids (s : store) (src : N) (uids : list N) : list N :=
+  filter (has_msg s src) uids.
 
 Record result := { r_store : store; r_trace : list store; r_resp : resp }.
 
@@ -152,7 +157,7 @@ Definition run_dcmd (s : store) (c : dcmd) (fault : option nat) : result :=
       let mv := match c with DMove _ _ _ => true | _ => false end in
       match get_box s src, get_box s dst with
       | Some _, Some _ =>
-          let '(s1, tr, f) := copy_loop mv s src uids dst fault in
+          let '(s1, tr, f) := copy_loop mv s src (known_uids s src uids) dst fault in
           {| r_store := s1; r_trace := tr; r_resp := if f then RBye else ROk |}
       | _, _ => {| r_store := s; r_trace := []; r_resp := RNo |}
       end
